@@ -26,6 +26,10 @@ NS = "babylon::anyflow::"
 UNITS = ("dependency.cpp", "vertex.cpp", "data.cpp", "closure.cpp", "graph.cpp", "executor.cpp", "builder.cpp")
 
 
+DEPENDS = {
+    "C08": "the closure's finish / wait is a babylon Future-style countdown",
+}
+
 def units(tier):
     return [lib("anyflow/" + u) for u in UNITS]
 
